@@ -1,7 +1,7 @@
 CONSTANTS
   LookupOrders = {"b", "fb", "bf"}
   SortFlags = {0, 128}
-  Reqs = {"gai0", "gai4", "gai6", "gaih0", "gaih4", "gaih6", "gailocal", "gail4only0", "gail4only6", "gail6only0", "gailother0", "gailit", "ghbn4", "ghbn6", "ghbnh4", "ghba4", "ghba6", "gni4", "ghbah4", "ghbah6", "ghbal6", "ghbam6", "gnih4", "gnil6"}
+  Reqs = {"gai0", "gai4", "gai6", "gaih0", "gaih4", "gaih6", "gailocal", "gail4only0", "gail4only6", "gail6only0", "gailother0", "gailit", "ghbn4", "ghbn6", "ghbnh4", "ghba4", "ghba6", "gni4", "ghbah4", "ghbah6", "ghbal6", "ghbam6", "ghbax6", "gnix6", "gnih4", "gnil6"}
   Shapes = {"one", "three", "cname2", "chaos", "nodata", "nx", "five"}
   QCacheSet = {0}
   V6Src = 0
